@@ -4,7 +4,7 @@
                                                    [split_flags, parse_cards, dict_set]
      Kernel/BoundaryCondition/CConversionBoundaryCondition.py
                                                    [recuperate, conv_kinds, bc_entries]
-     Kernel/FileHandlers/Writer/WriteT4BoundCond.py [the entries, in dictionary order]
+     Kernel/FileHandlers/Writer/WriteT4BoundCond.py [merge_entries: renumbered, used keys]
      Kernel/Surface/CollectionDict.py number_items  [number_items]
      Kernel/Surface/Duplicates.py                   [repr_of, renumber]
      Kernel/Volume/VolumeT4.py empty, ConstructVolumeT4.py remove_empty_volumes,
@@ -122,7 +122,7 @@ Fixpoint conv_kinds (l : list (N * string)) (prev : option kind) : res (list (ki
       end
   end.
 
-(* the ALL_COMPLETE lines of the block, in order (no block when empty) *)
+(* conversionBoundCond as a list: (kind, MCNP key) in dictionary order *)
 Definition bc_entries (t : table) : res (list (kind * N)) :=
   match recuperate t with
   | Err e => Err e
@@ -259,16 +259,57 @@ Record config := mkCfg { skip_dedup : bool; skip_bc : bool }.
 
 Definition output := (list (N * N) * list (kind * N))%type.
 
+Definition kind_eqb (a b : kind) : bool :=
+  match a, b with
+  | Reflection, Reflection | Cosinus, Cosinus => true
+  | _, _ => false
+  end.
+
+(* d.get(k) on the insertion-ordered dictionary of the entries kept so far *)
+Fixpoint kind_lookup (k : N) (l : list (kind * N)) : option kind :=
+  match l with
+  | [] => None
+  | (kd, k') :: r => if N.eqb k k' then Some kd else kind_lookup k r
+  end.
+
+(* renumbering.get(k, k), or k itself when de-duplication is skipped *)
+Definition rep (dedup : bool) (nb : numbering) (k : N) : N :=
+  match repr_of dedup nb k with Some k' => k' | None => k end.
+
+(* writeT4BoundCond (repaired): each flagged key is mapped through the
+   de-duplication renumbering; keys whose representative is not a written SURF
+   are dropped; the first entry of a representative is kept, a later one of
+   another kind is a ValueError *)
+Fixpoint merge_entries (dedup : bool) (nb : numbering) (used : list N)
+    (l acc : list (kind * N)) : res (list (kind * N)) :=
+  match l with
+  | [] => Ok acc
+  | (kd, k) :: r =>
+      let k' := rep dedup nb k in
+      if memN k' used then
+        match kind_lookup k' acc with
+        | None => merge_entries dedup nb used r (acc ++ [(kd, k')])%list
+        | Some kd0 =>
+            if kind_eqb kd0 kd then merge_entries dedup nb used r acc else Err EValue
+        end
+      else merge_entries dedup nb used r acc
+  end.
+
 (* what happens once the surface dictionary is complete: the geometry is
    written first (its errors win), then the block *)
 Definition finish (cfg : config) (t : table) (cells : list cell) : res output :=
-  match geometry (negb (skip_dedup cfg)) t cells with
+  let dedup := negb (skip_dedup cfg) in
+  match geometry dedup t cells with
   | Err e => Err e
   | Ok surfs =>
       if skip_bc cfg then Ok (surfs, [])
       else match bc_entries t with
            | Err e => Err e
-           | Ok bcs => Ok (surfs, bcs)
+           | Ok l =>
+               match merge_entries dedup (number_items t) (map fst surfs) l [] with
+               | Err e => Err e
+               | Ok bcs => Ok (surfs, bcs)
+               end
            end
   end.
 
